@@ -156,6 +156,8 @@ def build_value(desc):
         return [build_value(d) for d in desc[1:]]
     if desc[0] == "D":
         return {k: build_value(d) for k, d in desc[1:]}
+    if desc[0] == "I":
+        return iter([build_value(d) for d in desc[1:]])  # a one-shot iterator (an Iterable that can be traversed only once)
     if desc[0] == "M":
         # a mapping that is not a plain dict: ["M", kind, [key, desc] ...]
         content = {k: build_value(d) for k, d in desc[2:]}
@@ -828,6 +830,8 @@ def check_variables(ts, default, desc, res):
     if defs is None:
         src = f"query ($v: {ts}{'' if dtext is None else ' = ' + dtext}) {{ __typename }}"
         defs = e._docs[key] = parse(src).definitions[0].variable_definitions
+    if base_of(ts) == "Any" and "'I'" in repr(desc):
+        return None  # the custom scalar passes the iterator object through; two iterators cannot be compared
     inputs = {} if desc is None else {"v": build_value(desc)}
     res.evaluations += 1
     try:
@@ -838,7 +842,7 @@ def check_variables(ts, default, desc, res):
     provided = "v" in inputs and inputs["v"] is not Undefined
     NonNull = refc.kinds()[0]
     if provided:
-        want = coerce_input_value(inputs["v"], t)
+        want = coerce_input_value(build_value(desc), t)  # built again: a one-shot iterator in the value is used up by now
     elif dtext is not None:
         want = coerce_input_literal(e.node(dtext), t)
     else:
@@ -1025,7 +1029,11 @@ def run_shard(shard, tier):
                 check_var_literal(ts, tmpl, path, state, res, fstate)
                 n += 1
         extra = [["D"], ["D", ["x", "int:1"]], ["D", ["x", "int:1"], [UNKNOWN, "None"]], ["D", ["v", "int:1"]],
-                 ["D", ["a", "str:a"]], ["D", ["a", "str:a"], ["b", "None"]], ["L", "dict:x=1", "dict:x=1,zz=None"]]
+                 ["D", ["a", "str:a"]], ["D", ["a", "str:a"], ["b", "None"]], ["L", "dict:x=1", "dict:x=1,zz=None"],
+                 # one-shot iterators where lists are expected (valid and invalid content), also nested
+                 ["I"], ["I", "int:1"], ["I", "int:1", "str:a"], ["I", "None"], ["I", "str:a"], ["L", ["I", "int:1"]], ["L", ["I", "str:a"]],
+                 ["I", ["D", ["x", "int:1"]]], ["I", ["D", ["x", "str:a"]]], ["D", ["list", ["I", ["D", ["v", "int:1"]]]]],
+                 ["D", ["list", ["I", "str:a"]]], ["D", ["v", "int:1"], ["list", ["I", ["D", ["v", "str:a"]]]]]]
         for default in DEFAULTS:
             for desc in [None] + V.labels() + extra:
                 check_variables(ts, default, desc, res)
